@@ -240,7 +240,7 @@ impl World {
         let livef: Vec<usize> = (0..self.futs.len()).filter(|&i| self.futs[i].is_some()).collect();
         let has = !live.is_empty();
         let deep = depth >= 3;
-        let w: [u32; 23] = [
+        let w: [u32; 24] = [
             6,                                          // 0 NewMacro
             if self.metas.is_empty() { 0 } else { 4 },  // 1 NewApi
             1,                                          // 2 NewNone
@@ -264,6 +264,7 @@ impl World {
             if has { 2 } else { 0 },                    // 20 in_scope / enter guard unwound by a caught panic
             if live.len() >= 2 { 3 } else { 0 },        // 21 CloneFrom
             if has { 2 } else { 0 },                    // 22 handle dropped by a panic's unwinding
+            if self.nthreads == 1 { 2 } else { 0 },     // 23 a collector changes its filter (+ hint), interest cache rebuilt
         ];
         let op = self.rng.weighted(&w);
         let opid = self.opid;
@@ -284,7 +285,7 @@ impl World {
                     Emitted::Span(s) => s,
                     _ => unreachable!(),
                 };
-                let accepted = dflt.map(|d| level <= self.protos[d].thresh).unwrap_or(false);
+                let accepted = dflt.map(|d| level <= self.protos[d].thresh()).unwrap_or(false);
                 let want_parent = if root { Parent::Root } else { Parent::Contextual };
                 self.trace.push(format!("[{t}] h{} = span!({}{}) under default {:?}", self.handles.len(), if root { "parent: None, " } else { "" }, vcs::LEVEL_NAMES[level], dflt.map(|d| d + 1)));
                 self.sig(if root { "new_macro_root" } else { "new_macro" }, if accepted { dflt } else { None }, accepted, depth);
@@ -885,6 +886,19 @@ impl World {
                     }
                     _ => { self.expect(None, &[]); }
                 }
+            }
+            23 => {
+                // a collector lowers / raises its level filter at run time and announces it as its
+                // max-level hint (or stops announcing one), then the interest cache is rebuilt -
+                // what a reload does.  Spans it accepted earlier keep their full protocol.
+                let c = self.rng.usize(self.protos.len());
+                let nt = 1 + self.rng.usize(5);
+                let hint = self.rng.chance(2, 3);
+                self.trace.push(format!("[{t}] collector {} now accepts level <= {} (max_level_hint: {}); rebuild_interest_cache()", c + 1, vcs::LEVEL_NAMES[nt], if hint { "that level" } else { "None" }));
+                self.protos[c].refilter(nt, hint);
+                tracing_core::callsite::rebuild_interest_cache();
+                self.stat("filter_changes_at_run_time");
+                self.expect(None, &[]);
             }
             _ => unreachable!(),
         }
